@@ -383,7 +383,8 @@ pub fn run_script(script: &Script, trace: bool, prefix: &str) -> (Exec, Option<O
                 Act::Gap => {
                     net.quiesce(gap, Duration::from_secs(5)).await;
                     gap_idx += 1;
-                    if sc.long_gap_ms > 0 && crate::rng::mix(&[sc.seed, 0x6761_70, gap_idx]) & 1 == 1 {
+                    // below 5 s: after about half of the gaps; from 5 s on (a paced peer): after every gap
+                    if sc.long_gap_ms > 0 && (sc.long_gap_ms >= 5_000 || crate::rng::mix(&[sc.seed, 0x6761_70, gap_idx]) & 1 == 1) {
                         tokio::time::sleep(Duration::from_millis(sc.long_gap_ms)).await;
                         *fired.entry("long_silence_inside_element").or_insert(0) += 1;
                     }
@@ -418,11 +419,12 @@ pub fn run_script(script: &Script, trace: bool, prefix: &str) -> (Exec, Option<O
                     }
                 }
                 Act::AppOpenUni { hex } => {
-                    let conn = app_slot.lock().unwrap().as_ref().map(|a| a.conn.clone());
-                    if let Some(conn) = conn {
+                    let conn = app_slot.lock().unwrap().as_ref().map(|a| (a.conn.clone(), a.log.clone()));
+                    if let Some((conn, log)) = conn {
                         let bytes = unhex(hex);
                         let r = tokio::time::timeout(Duration::from_secs(20), async {
                             let mut s = conn.open_uni().await.ok()?.await.ok()?;
+                            log.lock().unwrap().opened_uni.push((s.id().into_u64(), bytes.clone()));
                             s.write_all(&bytes).await.ok()?;
                             s.finish().await.ok()
                         })
